@@ -94,6 +94,8 @@ def run_case(op, xs, ks, sizes, params):
     # y: the values of x rotated by one row and doubled, so that missing values sit in different rows of the two columns
     ys = [xs[(i + 1) % n] * 2 for i in range(n)] if n else []
     full = pd.DataFrame({'x': xs, 'y': ys, 'k': ks}, index=index)
+    if op.get('int_labels'):
+        full = full.rename(columns={'x': 0, 'y': 1, 'k': 2})
     src = Stream()
     sdf = DataFrame(src, example=full.iloc[:0])
     try:
@@ -104,6 +106,8 @@ def run_case(op, xs, ks, sizes, params):
     pos = 0
     for bi, sz in enumerate(sizes):
         batch = full.iloc[pos:pos + sz]
+        if op.get('local_index'):
+            batch = batch.reset_index(drop=True)
         pos += sz
         before = len(L)
         try:
@@ -136,6 +140,11 @@ def run_case(op, xs, ks, sizes, params):
         pieces = [p for p in L if p is not None and len(p)]
         got = pd.concat(pieces) if pieces else full.iloc[:0][op.get('col', 'x')]
         want = op['oracle'](full, params)
+        if op.get('values_only'):
+            gv, wv = list(got.values), list(want.values)
+            if len(gv) != len(wv) or not all(eq(a, b) for a, b in zip(gv, wv)):
+                return {'got': repr(gv)[:300], 'pandas': repr(wv)[:300], 'lengths': [len(p) for p in L]}
+            return None
         if not eq(got, want):
             return {'got': repr(got)[:300], 'pandas': repr(want)[:300], 'lengths': [len(p) for p in L]}
     return None
@@ -205,6 +214,20 @@ def ops_for(pid):
         return {'name': 'window(n=%d).k.value_counts' % n, 'kind': P, 'index': 'int', 'present_only': True,
                 'build': lambda s, p: s.window(n=n).k.value_counts(), 'oracle': lambda d, p: d.k.iloc[-n:].value_counts()}
 
+    def gb_intlabels(name):
+        # integer column labels (0 = data, 2 = key): a falsy label must select its column like any other
+        return {'name': "int-labelled frame: groupby(2)[0].%s" % name, 'kind': P, 'index': 'int', 'int_labels': True,
+                'build': lambda s, p: getattr(s.groupby(2)[0], name)(), 'oracle': lambda d, p: getattr(d.groupby(2)[0], name)()}
+
+    def wingb_array(name, n):
+        import numpy as np
+
+        def oracle(d, p):
+            w = d.iloc[-n:]
+            return getattr(w.groupby(w.k.values).x, name)()
+        return {'name': "window(n=%d).groupby(<stream of numpy arrays>).x.%s" % (n, name), 'kind': P, 'index': 'int',
+                'build': lambda s, p: getattr(s.window(n=n).groupby(s.k.map_partitions(np.asarray, s.k)).x, name)(), 'oracle': oracle}
+
     def gbd(name, ddof):
         return {'name': "groupby('k').x.%s(ddof=%d)" % (name, ddof), 'kind': P, 'index': 'int',
                 'build': lambda s, p: getattr(s.groupby('k').x, name)(ddof=ddof),
@@ -258,6 +281,12 @@ def ops_for(pid):
                 'build': lambda s, p: getattr(s.x.rolling('%ds' % secs), name)(),
                 'oracle': lambda d, p: getattr(d.x.rolling('%ds' % secs), name)()}
 
+    def cum_local(name):
+        # every batch arrives with its own default RangeIndex (labels repeat across batches): the VALUES must still be those of
+        # the one-pass cumulative operation
+        return {'name': 'x.%s [per-batch RangeIndex]' % name, 'kind': 'concat', 'index': 'int', 'local_index': True, 'values_only': True,
+                'build': lambda s, p: getattr(s.x, name)(), 'oracle': lambda d, p: getattr(d.x, name)()}
+
     def cumf(name):
         return {'name': 'frame[x,y].%s' % name, 'kind': 'concat', 'index': 'int', 'col': ['x', 'y'],
                 'build': lambda s, p: getattr(s[['x', 'y']], name)(), 'oracle': lambda d, p: getattr(d[['x', 'y']], name)()}
@@ -309,14 +338,15 @@ def ops_for(pid):
     if pid == 'C06':
         return [red('sum'), red('count'), red('mean'), red('size'), red('sum', True), red('mean', True), red('count', True),
                 gb('sum'), gb('count'), gb('size'), gb('mean'), gb('var'), gb('std'), gb('sum', True), gb('mean', True),
-                gbd('var', 0), gbd('std', 0), vc()]
+                gbd('var', 0), gbd('std', 0), vc(), gb_intlabels('sum'), gb_intlabels('mean')]
     if pid == 'C07':
         return [win('sum', 2), win('mean', 3), win('count', 1), win('var', 3), win('std', 2), win('size', 2),
                 wint('sum', 2), wint('mean', 1), wingb('sum', 2), wingb('mean', 3), wingb('count', 2), wingb('size', 3),
-                wind('var', 3, 0), wind('std', 3, 0), wingbd('var', 3, 0), wingbd('std', 2, 0), vc(1), vc(3)]
+                wind('var', 3, 0), wind('std', 3, 0), wingbd('var', 3, 0), wingbd('std', 2, 0), vc(1), vc(3),
+                wingb_array('sum', 2), wingb_array('count', 3)]
     if pid == 'C11':
         return [roll('sum', 2), roll('mean', 3), roll('max', 1), roll('count', 3), roll_t('sum', 2), roll_t('mean', 3),
-                cumf('cumsum'), cumf('cummax'), cum('cumsum'), cum('cumprod'), cum('cummax'),
+                cumf('cumsum'), cumf('cummax'), cum_local('cumsum'), cum_local('cummin'), cum('cumsum'), cum('cumprod'), cum('cummax'),
                 cum('cummin'), expanding('sum'), expanding('mean'), ewm(1), ewm(0.5)]
     return []
 
